@@ -4,8 +4,8 @@
     Run by ocaml/build.sh inside /verif/ocaml (coqc writes model.ml into the current directory). *)
 From Coq Require Extraction ExtrOcamlBasic.
 From Coq Require Import ZArith NArith List.
-From Morlock.Model Require Import Score Bits Attacks Move Position Zobrist Board Abs.
-From Morlock.Spec Require Chess Game.
+From Morlock.Model Require Import Score Bits Attacks Move Position Zobrist Board Abs Search TT SearchBoard.
+From Morlock.Spec Require Chess Game Minimax.
 Extraction Language OCaml.
 Extraction "model.ml"
   Score.less Score.negate Score.inc Score.dec Score.smax Score.smin Score.mate_distance Score.go_eq
@@ -26,4 +26,9 @@ Extraction "model.ml"
   Chess.spec_legal Chess.apply_move Chess.in_check Chess.attacked Chess.spec_perft Chess.spos_eqb Chess.smove_eqb
   Chess.checkmate Chess.stalemate Chess.candidates Chess.attacks_from Chess.occupied Chess.captured Chess.moving
   Chess.is_ep_move Chess.is_castling_move Chess.is_double_step
-  Game.g_start Game.g_play Game.insufficient Game.occurrences.
+  Game.g_start Game.g_play Game.insufficient Game.occurrences
+  Search.movelist Search.mvvlva
+  SearchBoard.search_board SearchBoard.minimax_board SearchBoard.material SearchBoard.full_exploration SearchBoard.captures_only
+  SearchBoard.f32_of_int
+  TT.new_table TT.tt_read TT.tt_write_ok TT.tt_used TT.occupied TT.val TT.cstep TT.crun TT.c_init TT.c_occupied TT.c_quiescent
+  Minimax.spec_mm Minimax.spec_qv Minimax.spec_material_int.
